@@ -44,6 +44,7 @@ const (
 	compOpAll  = "_all"
 	compOpNone = "_none"
 	opNot      = "_not"
+	opOr       = "_or"
 	// it's just there for composite indexes. We construct a slice of value matchers with
 	// every matcher being responsible for a corresponding field in the index to match.
 	// For some fields there might not be any criteria to match. For examples if you have
@@ -798,6 +799,9 @@ func (f *indexFetcher) determineFieldFilterConditions() ([]fieldFilterCond, erro
 			// case index will do more harm. For example if we have _not: {_eq: 5} and the index
 			// fetches value 5, it will skip all documents with value 5, but we need to return them.
 			opNot,
+			// a condition nested in _or does not have to hold for every matching document: a document
+			// can match through another branch, and the index would only yield those of this one.
+			opOr,
 		)
 
 		// if after traversing the filter for the first field we didn't find any condition that can
